@@ -14,6 +14,9 @@
 #include "Enum/ELoadBy.hpp"
 #include "Basic/VectorNumT.hpp"
 #include "Calculators/CalcMigrate.hpp"
+#include "Geometry/Rotation.hpp"
+#include "Geometry/GeometryHelper.hpp"
+#include "Matrix/MatrixSquareGeneral.hpp"
 #include "geoslib_old_f.h"
 #include <unordered_map>
 #include <csignal>
@@ -40,6 +43,8 @@ struct Ctx
   Grid grid;
   DbGrid* db = nullptr;   // with rank and coordinate columns
   int uidv = -1;          // UID of the variable "v" (= node rank), added on demand
+  bool byMatrix = false;  // rotation of 'grid' given as a matrix; 'ang' are then the angles the LIBRARY derives from it
+  std::string key;        // the description of the grid, as received
 };
 
 static VectorInt vi(const Value& v) { VectorInt r; for (auto& e : v.arr) r.push_back(e.i()); return r; }
@@ -53,24 +58,38 @@ static VectorDouble dup(const VectorDouble& v) { VectorDouble r(v.size()); for (
 
 static std::unordered_map<long long, Ctx*> CACHE;
 
+static MatrixSquareGeneral matrixFrom(const Value& m)
+{
+  int nd = (int)m.arr.size();
+  MatrixSquareGeneral r(nd);
+  for (int i = 0; i < nd; i++)
+    for (int j = 0; j < nd; j++) r.setValue(i, j, m.arr[i].arr[j].d());
+  return r;
+}
+static VectorDouble columnMajor(const Value& m)
+{
+  int nd = (int)m.arr.size();
+  VectorDouble v(nd * nd);
+  for (int i = 0; i < nd; i++)
+    for (int j = 0; j < nd; j++) v[j * nd + i] = m.arr[i].arr[j].d();
+  return v;
+}
+
+// The grid of a case.  "ang" : rotation given by its angles (Grid::resetFromVector, DbGrid::create).
+// "rotmat" (rows): rotation given as a matrix (Grid::setRotationByMatrix or, "by" = "vector",
+// Grid::setRotationByVector); the grid data base and every derived grid are then created with the
+// angles that the library derives from the matrix (Grid::getRotAngles), as DbGrid::createCoarse ... do.
 static Ctx* context(const Value& c)
 {
   long long gid = (long long)c.at("gid").d();
-  const Value& gj = c.at("g");
+  const Value& g = c.at("g");
+  std::string key = vj::dump(g);
   auto it = CACHE.find(gid);
   if (it != CACHE.end())
   {
     // the identifier is a hash of the grid: make sure that it is the same grid
     Ctx* y = it->second;
-    bool ok = y->nd == gj.at("nd").i();
-    if (ok)
-    {
-      VectorInt nx = vi(gj.at("nx"));
-      VectorDouble dx = vd(gj.at("dx")), x0 = vd(gj.at("x0")), ang = vd(gj.at("ang"));
-      for (int k = 0; ok && k < y->nd; k++)
-        ok = nx[k] == y->nx[k] && dx[k] == y->dx[k] && x0[k] == y->x0[k] && ang[k] == y->ang[k];
-    }
-    if (ok) return y;
+    if (y->key == key) return y;
     delete y->db;
     delete y;
     CACHE.erase(it);
@@ -80,14 +99,25 @@ static Ctx* context(const Value& c)
     for (auto& kv : CACHE) { delete kv.second->db; delete kv.second; }
     CACHE.clear();
   }
-  const Value& g = gj;
   Ctx* x = new Ctx;
+  x->key = key;
   x->nd = g.at("nd").i();
   x->nx = vi(g.at("nx"));
   x->dx = vd(g.at("dx"));
   x->x0 = vd(g.at("x0"));
-  x->ang = vd(g.at("ang"));
-  x->grid.resetFromVector(x->nx, x->dx, x->x0, x->ang);
+  if (g.has("rotmat"))
+  {
+    x->byMatrix = true;
+    x->grid.resetFromVector(x->nx, x->dx, x->x0);
+    if (g.gets("by", "matrix") == "vector") x->grid.setRotationByVector(columnMajor(g.at("rotmat")));
+    else x->grid.setRotationByMatrix(matrixFrom(g.at("rotmat")));
+    x->ang = dup(x->grid.getRotAngles());
+  }
+  else
+  {
+    x->ang = vd(g.at("ang"));
+    x->grid.resetFromVector(x->nx, x->dx, x->x0, x->ang);
+  }
   x->db = DbGrid::create(x->nx, x->dx, x->x0, x->ang);
   CACHE[gid] = x;
   return x;
@@ -166,6 +196,48 @@ static void runGrid(const Value& c, Ctx* x, Value& o)
   o["g.nx@Grid.resetFromGrid.getNXs"] = jv(g3.getNXs());
   o["g.dx@Grid.resetFromGrid.getDXs"] = jv(g3.getDXs());
   o["g.x0@Grid.resetFromGrid.getX0s"] = jv(g3.getX0s());
+  {
+    Grid g4(x->nd, x->nx, x->x0, x->dx);
+    g4.copyParams(4, g);
+    o["M@Grid.copyParams(4).getMatrixDirect"] = matrixOf(g4.getRotation(), false);
+    Grid g5;
+    g5.resetFromVector(x->nx, x->dx, x->x0, g.getRotAngles());
+    o["M@Grid.resetFromVector(getRotAngles).getMatrixDirect"] = matrixOf(g5.getRotation(), false);
+  }
+  if (x->nd >= 2 && c.has("M"))
+  {
+    // angles -> matrix -> angles -> matrix is the identity on matrices (whatever angles are returned)
+    int nd = x->nd;
+    const Value& M = c.at("M");
+    Rotation r1(nd);
+    int e1 = r1.setMatrixDirect(matrixFrom(M));
+    o["zero@Rotation.setMatrixDirect.err"] = Value(e1);
+    o["M@Rotation.setMatrixDirect.getMatrixDirect"] = matrixOf(r1, false);
+    o["MI@Rotation.setMatrixDirect.getMatrixInverse"] = matrixOf(r1, true);
+    Rotation r2(nd);
+    r2.setAngles(r1.getAngles());
+    o["M@Rotation.setMatrixDirect.getAngles.setAngles.getMatrixDirect"] = matrixOf(r2, false);
+    Rotation r3(nd);
+    int e3 = r3.setMatrixDirectVec(columnMajor(M));
+    o["zero@Rotation.setMatrixDirectVec.err"] = Value(e3);
+    o["M@Rotation.setMatrixDirectVec.getMatrixDirect"] = matrixOf(r3, false);
+    Rotation r4(nd);
+    r4.setAngles(r3.getAngles());
+    o["M@Rotation.setMatrixDirectVec.getAngles.setAngles.getMatrixDirect"] = matrixOf(r4, false);
+    VectorDouble cm = columnMajor(M), ang(nd, 0.), back(nd * nd, 0.);
+    GH::rotationGetAnglesInPlace(cm, ang);
+    GH::rotationMatrixInPlace(nd, ang, back);
+    Value mb = Value::array();
+    for (int i = 0; i < nd; i++) { Value row = Value::array(); for (int j = 0; j < nd; j++) row.push(Value(back[j * nd + i])); mb.push(row); }
+    o["M@GH.rotationGetAnglesInPlace.rotationMatrixInPlace"] = mb;
+    Grid g6;
+    g6.resetFromVector(x->nx, x->dx, x->x0);
+    g6.setRotationByMatrix(matrixFrom(M));
+    o["M@Grid.setRotationByMatrix.getMatrixDirect"] = matrixOf(g6.getRotation(), false);
+    Grid g7;
+    g7.resetFromGrid(&g6);
+    o["M@Grid.setRotationByMatrix.resetFromGrid.getMatrixDirect"] = matrixOf(g7.getRotation(), false);
+  }
   const DbGrid* db = x->db;
   o["ntot@DbGrid.getSampleNumber"] = Value(db->getSampleNumber());
   o["g.nd@DbGrid.getNDim"] = Value(db->getNDim());
@@ -386,6 +458,16 @@ static void runMult(const Value& c, Ctx* x, Value& o, bool divider)
   o["nx@" + api] = jv(nx);
   o["dx@" + api] = jv(dx);
   o["X0@" + api] = jv(x0);
+  {
+    bool ok = true;
+    for (int k = 0; k < nd; k++) if (nx[k] < 1 || nx[k] > 64 || !(dx[k] > 0)) ok = false;
+    if (ok)
+    {
+      Grid ch;
+      ch.resetFromVector(nx, dx, x0, x->grid.getRotAngles());
+      o["XS@" + api + ".nodes(getRotAngles)"] = nodesOfGrid(ch);
+    }
+  }
   if (divider)
   {
     childDb(o, "DbGrid.createRefine", DbGrid::createRefine(x->db, m, cell), true);
@@ -419,8 +501,8 @@ static void runDilate(const Value& c, Ctx* x, Value& o)
   if (ok)
   {
     Grid ch;
-    ch.resetFromVector(nx, dx, x0, x->ang);
-    o["XS@Grid.dilate.nodes"] = nodesOfGrid(ch);
+    ch.resetFromVector(nx, dx, x0, x->grid.getRotAngles());
+    o["XS@Grid.dilate.nodes(getRotAngles)"] = nodesOfGrid(ch);
   }
 }
 
@@ -476,6 +558,23 @@ static void runMigrate(const Value& c, Ctx* x, Value& o)
   o["cells@migrateGridToCoor"] = cellsOf(out);
   o["rcs@DbGrid.locateDataInGrid"] = jv(db->locateDataInGrid(pts, VectorInt(), false));
   o["ris@DbGrid.locateDataInGrid.centered"] = jv(db->locateDataInGrid(pts, VectorInt(), true));
+  o["rcs@DbGrid.locateDataInGrid(useSel,no selection)"] = jv(db->locateDataInGrid(pts, VectorInt(), false, true));
+  // a list of sample ranks (permuted subset)
+  VectorInt pick = vi(c.at("pick"));
+  o["rcsL@DbGrid.locateDataInGrid(list)"] = jv(db->locateDataInGrid(pts, pick, false));
+  o["risL@DbGrid.locateDataInGrid(list).centered"] = jv(db->locateDataInGrid(pts, pick, true));
+  {
+    Value a = Value::array(), b = Value::array();
+    VectorDouble work(nd);
+    for (int t : pick)
+    {
+      VectorDouble xy = pts->getSampleCoordinates(t);
+      a.push(Value(db->coordinateToRank(xy, false)));
+      b.push(Value(index_point_to_grid(pts, t, 0, db, work.data())));
+    }
+    o["rcsL@Db.getSampleCoordinates.coordinateToRank"] = a;
+    o["risL@index_point_to_grid(0)(list)"] = b;
+  }
   {
     Value a = Value::array(), b = Value::array();
     VectorDouble work(nd);
@@ -486,6 +585,24 @@ static void runMigrate(const Value& c, Ctx* x, Value& o)
     }
     o["ris@index_point_to_grid(0)"] = a;
     o["ois@point_inside_grid"] = b;
+  }
+  // a selection of samples (not a prefix): only the active samples are located / receive a value
+  {
+    VectorInt mask = vi(c.at("selmask"));
+    VectorDouble sel(np);
+    for (int t = 0; t < np; t++) sel[t] = mask[t];
+    pts->addColumns(sel, "sel", ELoc::SEL);
+    o["rcsS@DbGrid.locateDataInGrid(useSel)"] = jv(db->locateDataInGrid(pts, VectorInt(), false, true));
+    o["risS@DbGrid.locateDataInGrid(useSel).centered"] = jv(db->locateDataInGrid(pts, VectorInt(), true, true));
+    o["rcs@DbGrid.locateDataInGrid(selection ignored)"] = jv(db->locateDataInGrid(pts, VectorInt(), false, false));
+    o["risL@DbGrid.locateDataInGrid(list,selection).centered"] = jv(db->locateDataInGrid(pts, pick, true, false));
+    int err3 = migrate(db, pts, "v", 1, VectorDouble(), false, false, false, NamingConvention("MigSel"));
+    o["zero@migrate(selection).err"] = Value(err3);
+    if (err3 == 0)
+    {
+      int last = pts->getColumnNumber() - 1;
+      o["cellsM@migrate(grid->points,selection)"] = cellsOf(pts->getColumnByColIdx(last));
+    }
   }
   delete pts;
 }
